@@ -62,12 +62,14 @@ fn run_boundary(prog: usize, init: &[u8], sched: &Sched) -> Result<Obs, (String,
     let total = if prog == 3 { 3 } else { init.len() + appends };
     let (m, buf) = machine(prog, init, total);
     let mut p = build(&m);
-    let what = format!("program {prog} input {init:x?} schedule {sched:?}");
+    let what = if sched.len() > 24 { format!("program {prog} input {init:x?} schedule of {} acting boundaries from step {} to {} (action {})", sched.len(), sched[0].0, sched[sched.len() - 1].0, sched[0].1) } else { format!("program {prog} input {init:x?} schedule {sched:?}") };
     let mut sent: Vec<u8> = init.to_vec(); let mut drained: Vec<u8> = vec![];
     let mut next_byte = b'p';
     let mut halted = false; let mut steps = 0usize;
-    for k in 0..HORIZON {
-        let act = sched.iter().find(|s| s.0 as usize == k).map(|s| s.1).unwrap_or(0);
+    let acts: std::collections::HashMap<u32, u8> = sched.iter().copied().collect();
+    let horizon = HORIZON.max(sched.iter().map(|s| s.0 as usize).max().unwrap_or(0) + HORIZON);
+    for k in 0..horizon {
+        let act = acts.get(&(k as u32)).copied().unwrap_or(0);
         if act == 7 { poison_rwlock(&p.kb.get_buffer()); }
         if act == 8 { poison_rwlock(&p.disp.get_buffer()); }
         p.hold_kb = act == 1 || act == 3 || act == 5; p.hold_disp = act == 2 || act == 4 || act == 6; p.hold_read = act == 5 || act == 6;
@@ -190,6 +192,19 @@ fn check_attempts(prog: usize, init: &[u8], held: &[u32]) -> Result<(usize, Vec<
     Ok((o.steps, k, attempts))
 }
 
+/// scale: one uninterrupted hold of `len` steps (tens of thousands of consecutive busy polls) starting at step `start`
+fn check_long_hold(prog: usize, init: &[u8], start: u32, len: u32, act: u8) -> Result<(usize, Vec<&'static str>), (String, String)> {
+    let sched: Sched = (start..start + len).map(|k| (k, act)).collect();
+    let o = run_boundary(prog, init, &sched)?;
+    let what = format!("program {prog} input {init:x?}: the {} lock held {} for {len} consecutive steps from step {start}", if act % 2 == 1 { "keyboard" } else { "display" }, if act >= 5 { "by a reader" } else { "exclusively" });
+    if !o.halted { return Err(("program-starved".into(), format!("{what}: the program did not finish after the lock was released"))); }
+    if o.unwaited.1 > 0 && o.shown != o.output_expected { return Err(("output-lost:DDR-written-without-waiting-for-DSR".into(), format!("{what}: display shows {:x?}, program output {:x?}", o.shown, o.output_expected))); }
+    if o.unwaited.0 > 0 && o.received != o.sent { return Err(("input-wrong:KBDR-read-without-waiting-for-KBSR".into(), format!("{what}: received {:x?}, queued {:x?}", o.received, o.sent))); }
+    let k = judge(prog, &o, &what, o.stale > 0, o.dropped > 0)?;
+    Ok((o.steps, k))
+}
+const LONG_HOLDS: [u32; 5] = [300, 32768, 65535, 70000, 140000];
+
 // ---------------------------------------------------------------- enumeration
 
 fn inputs() -> Vec<Vec<u8>> { vec![vec![b'a'], vec![b'a', b'b'], vec![b'a', b'a', b'c'], vec![]] }
@@ -247,6 +262,15 @@ pub fn run(ctx: &Ctx) -> Report {
         });
         rep.absorb(r);
     }
+    // long holds: each length x start at steps 0..12 x {keyboard, display} x {exclusive, reader} on the echo program and the fixed-output program
+    let r = sweep(ctx, LONG_HOLDS.len() as u64 * 13 * 4 * 2, 1, |i, acc| {
+        let (len, start, act, prog) = (LONG_HOLDS[(i / (13 * 8)) as usize], (i / 8 % 13) as u32, [1u8, 2, 5, 6][(i / 2 % 4) as usize], if i % 2 == 0 { 0usize } else { 3 });
+        if prog == 3 && act % 2 == 1 { return; }
+        let init: Vec<u8> = if prog == 0 { vec![b'a', b'b'] } else { vec![] };
+        acc.evals += 1; acc.traces += 1; acc.nontrivial += 1; acc.count("long_hold_schedules", 1);
+        record(acc, check_long_hold(prog, &init, start, len, act), format!("L:{prog}:{}:{start}/{len}/{act}", hex(&init)));
+    });
+    rep.absorb(r);
     // attempt mode
     if ctx.thorough() {
         for &prog in &progs { for init in inputs() {
@@ -278,6 +302,10 @@ pub fn replay(case: &str) -> Option<String> {
     let prog: usize = p.get(1)?.parse().ok()?;
     let init = unhex(p.get(2)?)?;
     match *p.first()? {
+        "L" => {
+            let q: Vec<u32> = p.get(3)?.split('/').filter_map(|x| x.parse().ok()).collect();
+            match check_long_hold(prog, &init, *q.first()?, *q.get(1)?, *q.get(2)? as u8) { Ok((_, k)) => if k.is_empty() { None } else { Some(format!("known finding(s) exhibited: {k:?}")) }, Err((s, d)) => Some(format!("[{s}] {d}")) }
+        }
         "b" => {
             let sched: Sched = p.get(3)?.split(';').filter(|x| !x.is_empty()).filter_map(|x| { let (a, b) = x.split_once('/')?; Some((a.parse().ok()?, b.parse().ok()?)) }).collect();
             match check_boundary(prog, &init, &sched) { Ok((_, k)) => if k.is_empty() { None } else { Some(format!("known finding(s) exhibited: {k:?}")) }, Err((s, d)) => Some(format!("[{s}] {d}")) }
